@@ -24,6 +24,7 @@ from . import oracle
 WHAT = {
     "F5": "JSON report: each scenario's status is stored in its own element, results are attached to the steps in order",
     "F6": "JSON writer and reader agree on the keys of every element type",
+    "F10": "multi-line texts (doc-strings, error messages) survive writing to and reading from the JSON report unchanged",
     "F7": "status-keyed display tables (progress dots, colour aliases) cover every step status",
     "F8": "formatters that report the dequeued step reset or drain their step queue at every scenario/background/rule/feature boundary",
 }
@@ -205,6 +206,67 @@ def check_json_keys(chk, ix):
 # ----------------------------------------------------------------------
 # F7
 # ----------------------------------------------------------------------
+def check_json_text_roundtrip(chk, ix):
+    """F10: multi-line texts survive the JSON report: the writer only splits at line ends, the reader joins the lines
+    with the line end again and changes nothing else (JsonParser.parse_step / add_step_result on concrete elements)."""
+    chk.rule("F10", WHAT["F10"])
+    pc = ix.cls("behave.json_parser:JsonParser")
+    ps, ar = pc.lookup("parse_step"), pc.lookup("add_step_result")
+    texts = ["  indented first line\n\n    deeper\nlast line  ", "one line", "\n\nstarts with blank lines", "a\n b\n  c", "   "]
+    for text in texts:
+        as_json = text.splitlines() if "\n" in text else text      # what the writer stores (split_text_into_lines)
+        made = []
+
+        def step_ctor(i, s_, a, k, n, _m=made):
+            r = s_.alloc(HObj("StepTok", {}, open=True, label="step read back"))
+            _m.append(r)
+            return [(s_, "val", r)]
+        it = Interp(ix, stubs={"Step": step_ctor, "model.Step": step_ctor, "Status.from_name": lambda i, s_, a, k, n: [(s_, "val", "STATUS")]},
+                    name="JsonParser.parse_step")
+        it.int_sat = 1000
+        it.list_cap = 100
+        st = State()
+        st.frames = []
+
+        def jval(v):
+            return st.alloc(HObj("list", kind="list", items=list(v))) if isinstance(v, list) else v
+        result = st.alloc(HObj("dict", kind="dict", items=[("status", "failed"), ("duration", 0), ("error_message", jval(as_json))]))
+        elem = st.alloc(HObj("dict", kind="dict", items=[("keyword", "Given"), ("step_type", "given"), ("name", "a step"),
+                                                         ("location", "x.feature:3"), ("text", jval(as_json)), ("result", result)]))
+        me = st.alloc(HObj(pc, {}, open=True, label="json parser"))
+        outs = it.call_function(st, ps, [elem], {}, None, self_val=me)
+        chk.absorb(it)
+        chk.instance("F10")
+        if len(outs) != 1 or outs[0][1] != "val" or len(made) != 1:
+            raise AnalysisError("JsonParser.parse_step not foldable: %r" % ([(k, v) for _, k, v in outs][:3],))
+        so = outs[0][0].obj(made[0])
+        got_text, got_err = so.fields.get("text"), so.fields.get("error_message")
+        if got_text == text and got_err == text:
+            chk.ok("F10", {"text": text, "stored_as": as_json, "read_back": got_text}, nontrivial_key=text)
+        else:
+            _fail(chk, "F10", ps.fullname, ps.file, ps.lineno, "%r -> %r / %r" % (text, got_text, got_err),
+                  "a doc-string / error message %r, stored in the JSON report as %r, is read back as text %r and error message %r" % (
+                      text, as_json, got_text, got_err))
+    # the writer: what is stored under 'text' / 'error_message' is the text itself or text.splitlines()
+    jf = ix.cls("behave.formatter.json:JSONFormatter")
+    for meth, key in (("step", "text"), ("result", "error_message")):
+        f = jf.lookup(meth)
+        chk.instance("F10")
+        ok = False
+        transforms = []
+        for n in ast.walk(f.node):
+            if isinstance(n, ast.Assign) and isinstance(n.targets[0], ast.Name) and n.targets[0].id in (key, "text", "error_message") \
+                    and isinstance(n.value, ast.Call) and isinstance(n.value.func, ast.Attribute):
+                transforms.append(n.value.func.attr)
+        if all(t in ("splitlines",) for t in transforms if t not in ("get",)) :
+            ok = True
+        if ok:
+            chk.ok("F10", {"writer": "JSONFormatter.%s" % meth, "stores": "%s or %s.splitlines()" % (key, key)}, nontrivial_key=("writer", meth))
+        else:
+            _fail(chk, "F10", f.fullname, f.file, f.lineno, "writer transforms %s" % transforms,
+                  "JSONFormatter.%s stores the %s after %s: the reader (join with the line end) does not undo that" % (meth, key, transforms))
+
+
 def check_display_tables(chk, ix):
     chk.rule("F7", WHAT["F7"])
     pc = ix.cls("behave.formatter.progress:ProgressFormatterBase")
